@@ -15,6 +15,11 @@ inductive Input where
   | stdin (bytes : Bytes)
   | file (content : Option Bytes)     -- `none`: ioutil.ReadFile fails
 
+/-- The bytes `run()` reads: standard input, or the file's content if it can be read. -/
+def Input.data : Input → Option Bytes
+  | .stdin bs => some bs
+  | .file c => c
+
 structure Result where
   stdout : Bytes
   exit : Nat
@@ -28,10 +33,7 @@ def run [NumOps N] (cfg : Api.Config) (args : List Bytes) (input : Input) : Resu
   | [expression] =>
     match (Api.compile cfg expression : Res (Node N)) with
     | .ok _ =>
-      let data : Option Bytes := match input with
-        | .stdin bs => some bs
-        | .file c => c
-      (match data with
+      (match input.data with
        | none => fail
        | some inputData =>
         match (Json.decode inputData : Option (Val N)) with
